@@ -1,6 +1,6 @@
 (* Monomorphic instances run by the correspondence driver (extracted) and by the in-kernel cross-check (vm_compute):
    labels are integer codes. Definitions only. *)
-From BG Require Import Base DirectedModel DirectedSpec.
+From BG Require Import Base DirectedModel DirectedSpec UndirectedModel UndirectedSpec MultiModel WeightedModel MultiSpec.
 Local Open Scope Z_scope.
 (* the alphabet asked about in hasEdge(i,j,l): 0..3 for labelled graphs, the single NoLabel value otherwise *)
 Definition alpha (hs : bool) : list Z := if hs then [0; 1; 2; 3] else [0].
@@ -8,3 +8,14 @@ Definition d_trace (hs : bool) (v : variant) (n : nat) (ops : list (@dop Z)) : l
   trace Z.eqb 0 (fun z => z) (alpha hs) hs v (init n) ops.
 Definition d_spec_trace (hs : bool) (n : nat) (ops : list (@dop Z)) : list (option (list (list Z))) :=
   spec_trace Z.eqb 0 hs (fun z => z) (alpha hs) (s_init n) ops.
+Definition u_trace_z (hs : bool) (v : variant) (n : nat) (ops : list (@uop Z)) : list (list (list Z)) :=
+  u_trace Z.eqb 0 (fun z => z) (alpha hs) hs v (init n) ops.
+Definition u_spec_trace (hs : bool) (n : nat) (ops : list (@uop Z)) : list (option (list (list Z))) :=
+  uspec_trace Z.eqb 0 hs (fun z => z) (alpha hs) (s_init n) ops.
+(* multigraphs and weighted graphs; the two repaired behaviours that have no variant flag are passed explicitly *)
+Definition dm_trace_z (v : variant) (n : nat) (ops : list mop) := m_trace (dm_step v) (dm_observe v) (dm_init n) ops.
+Definition um_trace_z (v : variant) (set0 : bool) (n : nat) (ops : list mop) := m_trace (um_step v set0) (um_observe v) (dm_init n) ops.
+Definition dw_trace_z (v : variant) (n : nat) (ops : list wop) := w_trace (dw_step v) (dw_observe v) (dm_init n) ops.
+Definition uw_trace_z (v : variant) (canon : bool) (n : nat) (ops : list wop) := w_trace (uw_step v canon) (uw_observe v) (dm_init n) ops.
+Definition m_spec_trace (und : bool) (n : nat) (ops : list mop) := mspec_trace und (s_init n) ops.
+Definition w_spec_trace (und : bool) (n : nat) (ops : list wop) := wspec_trace und (s_init n) ops.
